@@ -7,7 +7,12 @@ ev_quasi_update / ev_lbfgs_direction hook events of the real solvers (harness/c0
 Stage 3 (C01CG, "conjugate-gradient direction"): the ten beta formulas, the formula-per-solver-id table, the candidate
 direction, the restart test and the loop book-keeping of src/solver/cgd.cpp as a Coq model over ordered fields
 (coq/theories/C01CG_*.v, Properties_C01CG.v) tied to the ev_cgd_direction hook events of the ten real cgd solvers
-(harness/c01_cgd.cpp incl. scripted gradient oracles that hit the case splits exactly, ocaml/c01cg_driver.ml)."""
+(harness/c01_cgd.cpp incl. scripted gradient oracles that hit the case splits exactly, ocaml/c01cg_driver.ml).
+Stage 4 (C01F, "finite termination"): the exact-arithmetic core of the convergence clause -- the direction blocks of cgd.cpp,
+quasi.cpp (BFGS) and lbfgs.cpp with their loop decisions (translated on every run) iterated with EXACT line searches on a
+strictly convex quadratic terminate in at most n iterations (coq/theories/C01_Finite_Defs.v, C01_Finite.v,
+Properties_C01F.v), tied to the real solvers run with a nearly exact line search on small-integer quadratics
+(harness/c01_finite.cpp, ocaml/c01f_driver.ml)."""
 import collections
 import json
 import os
@@ -50,15 +55,34 @@ MANIFEST = dict(
           "(natural runs + scripted small-integer gradient oracles that hit ties of the restart test and of every clamp "
           "exactly) is recomputed by the extracted exact model (beta within 1e-9 of the running error bound, restart decision "
           "exactly where binary64 is exact, direction within 2 ulp, loop book-keeping bitwise) and the proved clauses are "
-          "evaluated on the implementation's own numbers."),
+          "evaluated on the implementation's own numbers. (5) the exact-arithmetic core of the convergence clause (finite "
+          "termination), over every ordered field, all n, every symmetric positive definite A, exact line searches t = -(g.d)/(d'Ad) "
+          "(proved to be the minimiser along d, to decrease f strictly, and to cost two evaluations via the secant formula): the "
+          "cgd loop (cg_step, any of the ten ids) keeps ALL gradients mutually orthogonal, ALL directions mutually A-conjugate and "
+          "every gradient orthogonal to every earlier direction (induction over the run), hence reaches a zero gradient after at "
+          "most n iterations -- through a linear-algebra lemma proved directly on lists (a triangular bi-orthogonal family of "
+          "vectors of length n has at most n members); the quasi.cpp loop with BFGS_ (restart test and scaled initialisation "
+          "translated from the source) from any spd H0 keeps the hereditary secant equations H_{k+1} y_j = s_j for all j <= k and "
+          "mutually conjugate steps, never restarts, stops after at most n iterations and then H_n = A^{-1}; the lbfgs.cpp loop "
+          "(forced -g, store / clear, bounded history, any bound >= 1) runs in lock step with conjugate gradients -- same points, "
+          "direction a positive multiple of the cg direction. Tie: the extracted exact-rational runs against the ten cgd ids, bfgs "
+          "x {identity, scaled}, lbfgs x history {1,2,3,20} with More-Thuente at tolerance (1e-12, 1e-9) on integer quadratics: "
+          "iterates, gradients, directions, steps and H within 1e-8 of the exact run, the iteration at which |g| <= 1e-10 |g0| "
+          "equals the model's K <= n; direct oracles: converged within n + 2 iterations, orthogonality / conjugacy / hereditary "
+          "secant residuals, L-BFGS history = the newest h pairs bitwise. The 1500-evaluation clause itself stays searched: "
+          "inexact line searches and rounding are outside these theorems."),
     note=("Coq kernel; Flocq + FloatAxioms, Coq reals; translator; extraction (ExtrOcamlBasic + ExtrOCamlFloats; stage 2: "
           "ExtrOcamlZBigInt + Z.ggcd mapped to Zarith's gcd); harness + OCaml drivers; NANO_VERIF hooks in solver.cpp, "
           "quasi.cpp, lbfgs.cpp, cgd.cpp (add-only); floating-point rounding of the Eigen linear algebra is outside the theorems "
           "(compared within 1e-9 of the running error bound); the curvature condition s'y > 0 is a property of the line "
           "search, not of lbfgs.cpp/quasi.cpp (counted on every run); the Euclidean norms read by cgd's N formula are inputs of "
-          "the model; cgd events with a non-finite beta (division by a zero inner product) are skipped and counted; NDEBUG build."),
+          "the model; cgd events with a non-finite beta (division by a zero inner product) are skipped and counted; NDEBUG build; "
+          "stage C01F: theorems in exact arithmetic with exact line searches (closed under the global context: no axiom); the "
+          "real runs use the tightest line search that never fails on the instance class and are compared within calibrated "
+          "tolerances; hook ev_solver_done supplies the per-iteration states."),
     technique="Coq proof over an extracted trace acceptor + real-analysis bound + exact-rational linear algebra of the "
-              "quasi-Newton updates and of the conjugate-gradient direction, trace acceptance of the instrumented solvers, "
+              "quasi-Newton updates and of the conjugate-gradient direction, finite-termination theorems (induction over runs + "
+              "a dimension bound by Gaussian elimination on lists), trace acceptance of the instrumented solvers, "
               "differential correspondence, direct oracle",
     design="DESIGN.md section 2, C01")
 
@@ -66,6 +90,7 @@ VARIANTS = ["rel"]
 
 QHARNESS = "c01_quasi"
 CGHARNESS = "c01_cgd"
+FHARNESS = "c01_finite"
 
 
 def _build_zdriver(name, modname):
@@ -106,11 +131,16 @@ def _build_cgdriver():
     return _build_zdriver("c01cg", "C01cg_model")
 
 
+def _build_fdriver():
+    return _build_zdriver("c01f", "C01f_model")
+
+
 def setup():
     c02.setup()
     vlib.build_harness(QHARNESS, "rel")
     vlib.build_harness(CGHARNESS, "rel")
-    for build in (_build_qdriver, _build_cgdriver):
+    vlib.build_harness(FHARNESS, "rel")
+    for build in (_build_qdriver, _build_cgdriver, _build_fdriver):
         try:
             build()
         except vlib.CheckError:
@@ -424,6 +454,231 @@ def _merge_cg(r, cres, stats, lines, mism, pf, fails, rc1, t0):
     return 1 if (rc1 or r.violations) else 0
 
 
+def _f_run_lines(lines, rid, cap=40):
+    """the FRUN header, the done() records and the hook events of run rid (the replay of a finite-termination violation)"""
+    hdr = [l for l in lines if l.startswith("FRUN %s " % rid)]
+    fi = [l for l in lines if l.startswith(("FI %s " % rid, "FEND %s " % rid))]
+    ev = [l for l in lines if l.startswith(("CD %s " % rid, "QU %s " % rid, "LD %s " % rid))]
+    return [l[:2000] for l in hdr[:1]] + [l[:2000] for l in fi[:cap]] + [l[:6000] for l in ev[:cap]]
+
+
+def finite_stage(tier):
+    """stage 4 (C01F): Coq development on finite termination with exact line searches + the extracted exact-rational runs of
+    the cgd / bfgs / lbfgs loops against the real solvers forced to (nearly) exact line searches on small-integer quadratics +
+    the classical consequences (finite termination, orthogonal gradients, conjugate steps, hereditary secant equations)
+    evaluated on the implementation's own numbers"""
+    r = vlib.Run("C01", tier)
+    cres = vlib.coq_check("C01F", targets=["theories/Extract_C01F.vo", "theories/Properties_C01F.vo"])
+    exe = vlib.build_harness(FHARNESS, "rel")
+    drv = None
+    try:
+        drv = _build_fdriver()
+    except (vlib.CheckError, OSError):
+        if cres["ok"]:
+            raise
+    t1 = time.time()
+    rc, out = vlib.sh([exe, tier], timeout=3000, env={"VERIF_SEED": str(r.seed)})
+    lines = [l for l in out.split("\n") if l]
+    done = [l for l in lines if l.startswith("DONE ")]
+    fails = [l for l in lines if l.startswith("FAIL ")]
+    replay_cmd = "VERIF_SEED=%d %s %s" % (r.seed, exe, tier)
+    if rc != 0 or not done:
+        last = [l[:300] for l in lines if l.startswith("FRUN ")][-1:]
+        r.violation("finite-crash", {"kind": "implementation crashed / did not terminate (exit %s)" % rc, "last_run": last,
+                                     "tail": [l[:400] for l in lines[-6:]], "replay_cmd": replay_cmd}, fingerprint="finite-crash")
+    # direct oracle of the harness (independent of any model): not converged / more than n + 2 iterations
+    seen = set()
+    for l in fails:
+        t = l.split(" ", 3)
+        rid, tag = (t[1], t[2]) if len(t) > 2 else ("?", "?")
+        if tag in seen or len(seen) >= 3:
+            continue
+        seen.add(tag)
+        same = [x for x in fails if x.split(" ", 3)[2:3] == [tag]]
+        r.violation("finite-impl-%s" % tag[:30],
+                    {"kind": "the real solver with (nearly) exact line searches on a strictly convex quadratic with small-integer "
+                             "data did not return `converged` / did not reach |g_k|_2 <= 1e-10 |g_0|_2 within n + 2 iterations "
+                             "(or the hook event layout check failed)",
+                     "what": l[:1000], "cases_of_this_kind": len(same), "run": _f_run_lines(lines, rid),
+                     "replay_cmd": "%s %s" % (replay_cmd, rid)})
+    stats, hists, maxdev = {}, {}, {}
+    tols = {}
+    mism, pf = [], []
+    if drv:
+        feed = "\n".join(l for l in lines if l.startswith(("FRUN ", "FI ", "CD ", "QU ", "LD "))) + "\n"
+        rc2, mout = vlib.sh([drv], input=feed, timeout=3000)
+        for l in mout.split("\n"):
+            if l.startswith("MISMATCH"):
+                mism.append(l)
+            elif l.startswith("PROPFAIL"):
+                pf.append(l)
+            elif l.startswith("HIST "):
+                t = l.split(" ")
+                if len(t) >= 4:
+                    hists["%s_%s" % (t[1], t[2])] = {k: int(v) for k, v in re.findall(r"(-?\d+):(\d+)", t[3])}
+            elif l.startswith(("MAXDEV ", "TOL ")):
+                t = l.split(" ")
+                try:
+                    (maxdev if t[0] == "MAXDEV" else tols)[t[1]] = float(t[2])
+                except (IndexError, ValueError):
+                    pass
+            elif l.startswith("MODEL-DONE"):
+                stats = {k: int(v) for k, v in re.findall(r"(\w+)=(\d+)", l)}
+        if rc2 != 0 or not stats.get("checked"):
+            r.violation("finite-driver", {"kind": "model driver failed", "out": mout[-2000:]}, no_input=True)
+
+        def report(tag, kind, group):
+            seen = set()
+            for l in group:
+                what = l.split(" ", 2)[1]
+                if what in seen or len(seen) >= 3:
+                    continue
+                seen.add(what)
+                m = re.search(r"RUN (\d+) EV (-?\d+)", l)
+                rid, k = (m.group(1), m.group(2)) if m else ("?", "?")
+                same = [x for x in group if x.split(" ", 2)[1] == what]
+                r.violation("finite-%s-%s" % (tag, what[:30]),
+                            {"kind": kind, "what": l[:3000], "cases_of_this_kind": len(same), "event": k,
+                             "run": _f_run_lines(lines, rid),
+                             "replay_cmd": "%s %s | grep -E '^(FRUN|FI|CD|QU|LD) ' | %s" % (replay_cmd, rid, drv)})
+        # a classical consequence of exact line searches on a quadratic fails on the implementation's own numbers
+        report("prop", "a consequence of exact line searches on a strictly convex quadratic (termination within n + 2 iterations, "
+                       "mutually orthogonal gradients, A-conjugate steps, gradient orthogonal to the earlier steps, decreasing f, "
+                       "hereditary secant equations of BFGS, L-BFGS direction = conjugate-gradient direction) fails on the numbers "
+                       "the implementation produced (exact arithmetic on the recorded doubles, no model function)", pf)
+        # the real run leaves the exact-rational run of the extracted model of the same loop
+        report("corr", "the iterates / directions / inverse-Hessian approximations of the real solver differ from the exact-"
+                       "rational run of the extracted model (the solver's own direction block + exact line-search step) beyond "
+                       "the calibrated tolerance, or the model does not terminate within n iterations", mism)
+    vlib.handle_coq_failure(r, cres)
+    maxdev["__tolerances__"] = tols
+    return r, cres, stats, lines, mism, pf, fails, hists, maxdev, round(time.time() - t1, 2)
+
+
+def _merge_f(r, cres, stats, lines, mism, pf, fails, hists, maxdev, tie_s, rc1, t0):
+    """fold stage 4 (C01F) into evidence/C01.json"""
+    path = os.path.join(vlib.OUTDIR, "evidence", "C01.json")
+    try:
+        ev = json.load(open(path))
+    except (OSError, ValueError):
+        ev = {"property_id": "C01", "tier": r.tier, "seed": r.seed, "level": "proof", "coverage": {}, "assumptions": [],
+              "wall_s": 0, "violations": 0}
+    cov = ev.setdefault("coverage", {})
+    nk = len(cres.get("kernels", []))
+    cov["obligations"] = cov.get("obligations", 0) + len(cres["theorems"]) + nk
+    cov["discharged"] = cov.get("discharged", 0) + cres["discharged"] + (nk if not cres.get("translator_failed") else 0)
+    cov["theorems"] = list(cov.get("theorems", [])) + list(cres["theorems"])
+    cov["translated_kernels"] = list(cov.get("translated_kernels", [])) + list(cres.get("kernels", []))
+    cov["checker_cmd"] = (cov.get("checker_cmd", "") + " ; make -C coq theories/Properties_C01F.vo && coqc theories/Properties_C01F.v "
+                          "(Print Assumptions)").strip(" ;")
+    tb = list(cov.get("trusted_base", []))
+    for a in ["axiom: " + a for a in cres["axioms"]] + [
+            "tools/translate.py (4 kernels of quasi.cpp / lbfgs.cpp: the quasi-Newton restart test, the scaled-initialisation "
+            "test, L-BFGS's forced -g and store / clear tests)",
+            "extraction of the finite-termination model: ExtrOcamlBasic + ExtrOcamlZBigInt, Z.ggcd mapped to Zarith's gcd",
+            "ocaml/c01f_driver.ml (exact double->Q conversion; the instance is rebuilt from the integers of the FRUN line; the "
+            "Euclidean norms read by cgd-n are a float square root converted exactly), harness/c01_finite.cpp (integer quadratics "
+            "evaluated with scalar loops; line search forced to More-Thuente with tolerance (1e-12, 1e-9))",
+            "NANO_VERIF hook ev_solver_done (solver.cpp; object = the solver state) in addition to the hooks of stages 2 and 3"]:
+        if a not in tb:
+            tb.append(a)
+    cov["trusted_base"] = tb
+    cov["coq_files"] = sorted(set(list(cov.get("coq_files", [])) + list(cres.get("files", []))))
+    if r.tier == "thorough" and cres.get("ok"):
+        r.pid = "C01F"
+        try:
+            vlib.coqchk_recheck(r)
+        finally:
+            r.pid = "C01"
+        cov["coqchk_C01F"] = r.coverage.pop("coqchk", None)
+    solvers = collections.Counter()
+    fams = collections.Counter()
+    dims = collections.Counter()
+    ls0s = collections.Counter()
+    iters = collections.Counter()
+    instances = set()
+    for l in lines:
+        if l.startswith("FRUN "):
+            hd = l.split(" | ", 1)
+            sid = re.search(r"solver=(\S+)", l).group(1)
+            init = re.search(r"init=(\S+)", l).group(1)
+            hist = re.search(r"history=(\S+)", l).group(1)
+            solvers[sid + ("/" + init if init != "-" else "") + ("/h=" + hist if hist != "-" else "")] += 1
+            fams[re.search(r"fam=(\S+)", l).group(1)] += 1
+            dims[re.search(r" n=(\d+)", l).group(1)] += 1
+            ls0s[re.search(r"ls0=(\S+)", l).group(1) + "+" + re.search(r"lsk=(\S+)", l).group(1)] += 1
+            if len(hd) > 1 and int(re.search(r" n=(\d+)", l).group(1)) > 1:
+                instances.add(hd[1])
+        elif l.startswith("FEND "):
+            iters[re.search(r"iters=(\d+)", l).group(1)] += 1
+    q = {k: v for k, v in stats.items() if k not in ("checked", "mismatches", "propfails", "events")}
+    cov["finite_runs_checked"] = stats.get("checked", 0)
+    cov["finite_hook_events_compared"] = stats.get("events", 0)
+    cov["finite_states_compared"] = stats.get("states_compared", 0)
+    cov["finite_distinct_instances_n_ge_2"] = len(instances)
+    cov["finite_model_stats"] = q
+    cov["finite_mismatches"] = max(len(mism), stats.get("mismatches", 0))
+    cov["finite_property_failures"] = max(len(pf), stats.get("propfails", 0))
+    cov["finite_impl_direct_failures"] = len(fails)
+    cov["finite_solver_histogram"] = dict(solvers)
+    cov["finite_family_histogram"] = dict(fams)
+    cov["finite_dims_histogram"] = dict(dims)
+    cov["finite_lsearch_histogram"] = dict(ls0s)
+    cov["finite_iterations_histogram"] = dict(iters)
+    for name, h in sorted(hists.items()):
+        cov["finite_hist_" + name] = {str(k): v for k, v in h.items()}
+    maxdev = dict(maxdev)
+    cov["finite_tolerances"] = maxdev.pop("__tolerances__", {})
+    cov["finite_max_deviation"] = dict(sorted(maxdev.items()))
+    cov["finite_tie_seconds"] = tie_s
+    cov["finite_rule"] = ("f(x) = x'Ax/2 + a'x with small-integer data: n in 1..6 (thorough: 1..8); A symmetric strictly diagonally dominant "
+                          "with off-diagonal entries in {-1,0,1} (2 of 4 runs) or {-2..2} (1 of 4) and diagonal = row sum of |.| + (1..4), "
+                          "or A = c I + u u' with c in 1..4, u in {-2..2}^n (1 of 4: two distinct eigenvalues); a in {-5..5}^n, x0 in "
+                          "{-10..10}^n; solvers: the ten cgd ids (orthotest 0.1 in half of the runs, else 0.01 / 0.5 / 0.9 / 0.001; "
+                          "cgdN::eta default), bfgs x {identity, scaled} (double weight), lbfgs with history 1, 2, 3, 20; lsearchk = "
+                          "morethuente with solver::tolerance = (1e-12, 1e-9) (cgdescent / lemarechal / backtrack accept overshooting "
+                          "steps and fletcher fails line searches at this tolerance: excluded after measurement, see the harness header), "
+                          "lsearch0 in {quadratic, constant, cgdescent, linear}, solver::epsilon = 1e-10, max_evals = 2000; 16 (thorough: "
+                          "160) runs per solver configuration; all from VERIF_SEED. evaluations below = runs + hook events compared")
+    cov["evaluations"] = cov.get("evaluations", 0) + stats.get("checked", 0) + stats.get("events", 0)
+    # samples: the first run, and the first bfgs / lbfgs runs with n >= 3 (header, one state / hook event, end)
+    picks = ["0"]
+    for sid in ("bfgs", "lbfgs"):
+        m = [re.match(r"FRUN (\d+) ", l).group(1) for l in lines
+             if l.startswith("FRUN ") and (" solver=%s " % sid) in l and int(re.search(r" n=(\d+)", l).group(1)) >= 3]
+        picks += m[:1]
+    cov["finite_samples"] = [l[:400] for l in lines
+                             if l.startswith(tuple(p % rid for rid in picks for p in ("FRUN %s ", "FI %s 1 ", "QU %s 0 ", "LD %s 1 ", "FEND %s ")))][:12]
+    cov["unproved_clauses_searched"] = list(cov.get("unproved_clauses_searched", [])) + [
+        "finite termination of the REAL solvers (floating point, More-Thuente line search at tolerance (1e-12, 1e-9) instead of an "
+        "exact one): `converged` and |g_k|_2 <= 1e-10 |g_0|_2 within n + 2 iterations on every generated instance (observed: "
+        "always within n, and at exactly the iteration K at which the exact-rational model reaches g_K = 0)",
+        "the iterates, gradients, function values, directions (CD / LD events), steps and inverse-Hessian approximations (QU events) "
+        "of the real runs agree with the exact-rational run of the extracted model within 1e-8 (measured maxima ~2e-11), i.e. "
+        "the deviation caused by the inexact line search and rounding stays at the level of the line-search tolerance",
+        "on the implementation's own numbers, for indices with |g_k|_2 > 1e-7 |g_0|_2: gradients mutually orthogonal, steps "
+        "mutually A-conjugate, g_j orthogonal to the earlier steps (cosines <= 1e-4; measured maxima ~7e-7), f decreasing, "
+        "BFGS hereditary secant equations H_{k+1} dg_j = dx_j for j <= k (1e-6; measured ~2e-9), L-BFGS direction conjugate to "
+        "the previous step and a descent direction; the L-BFGS history at every iteration is bitwise the newest h pairs "
+        "(x_{i+1} - x_i, g_{i+1} - g_i), oldest first",
+        "the exact model terminates: a zero gradient at some K <= n (checked exactly on every instance; this is the statement "
+        "of the stage's theorems, re-checked here on the extracted code)"]
+    ev["assumptions"] = list(ev.get("assumptions", [])) + [
+        "finite-termination stage: exact arithmetic and exact line searches in the theorems; the real solvers are run with the "
+        "tightest line-search setting that never fails on the instance class (More-Thuente, c2 = 1e-9) and compared within "
+        "calibrated tolerances; nothing is claimed for the other lsearchk ids (they do not produce exact steps)",
+        "finite-termination stage: well-conditioned small-integer quadratics only (diagonally dominant / identity plus rank one), "
+        "n <= 8"]
+    ev["violations"] = ev.get("violations", 0) + len(r.violations)
+    ev["wall_s"] = round(time.time() - t0, 2)
+    json.dump(ev, open(path, "w"), indent=1, default=str)
+    for fp, what in r.known_hits:
+        print("KNOWN-FINDING: property=C01 %s" % what)
+    for p, note in r.violations[:5]:
+        print(("VIOLATION property=C01 replay=%s %s" % (p, note)).rstrip())
+    return 1 if (rc1 or r.violations) else 0
+
+
 def run(tier, replay=None):
     t0 = time.time()
     rc1 = c02.run_shared(
@@ -455,4 +710,12 @@ def run(tier, replay=None):
         r = vlib.Run("C01", tier)
         r.violation("cgd-build", {"kind": "build-failure", "detail": str(ex)[-4000:]}, no_input=True)
         res3 = (r, {"theorems": [], "discharged": 0, "axioms": [], "kernels": [], "ok": False}, {}, [], [], [], [])
-    return _merge_cg(*res3, rc2, t0)
+    rc3 = _merge_cg(*res3, rc2, t0)
+    try:
+        res4 = finite_stage(tier)
+    except vlib.CheckError as ex:
+        # the finite-termination machinery could not be rebuilt against the working tree: the tie is broken
+        r = vlib.Run("C01", tier)
+        r.violation("finite-build", {"kind": "build-failure", "detail": str(ex)[-4000:]}, no_input=True)
+        res4 = (r, {"theorems": [], "discharged": 0, "axioms": [], "kernels": [], "ok": False}, {}, [], [], [], [], {}, {}, 0.0)
+    return _merge_f(*res4, rc3, t0)
